@@ -253,13 +253,21 @@ func (c connectUnaryServerProtocol) protocol() Protocol {
 
 func (c connectUnaryServerProtocol) addProtocolRequestHeaders(meta requestMeta, headers http.Header) {
 	headers.Set("Content-Type", contentConnectUnaryPrefix+meta.codec)
+	// Control headers of this protocol that the request metadata does not call
+	// for are removed: a client of another protocol may have sent them as
+	// ordinary headers.
 	if meta.compression != "" {
 		headers.Set("Content-Encoding", meta.compression)
+	} else {
+		headers.Del("Content-Encoding")
 	}
 	if len(meta.acceptCompression) > 0 {
 		headers.Set("Accept-Encoding", strings.Join(meta.acceptCompression, ", "))
+	} else {
+		headers.Del("Accept-Encoding")
 	}
 	headers.Set("Connect-Protocol-Version", "1")
+	headers.Del("Connect-Timeout-Ms")
 	if meta.hasTimeout {
 		timeoutStr := connectEncodeTimeout(meta.timeout)
 		if timeoutStr != "" {
@@ -507,14 +515,23 @@ func (c connectStreamServerProtocol) protocol() Protocol {
 
 func (c connectStreamServerProtocol) addProtocolRequestHeaders(meta requestMeta, headers http.Header) {
 	headers.Set("Content-Type", contentConnectStreamPrefix+meta.codec)
+	// Control headers of this protocol that the request metadata does not call
+	// for are removed: a client of another protocol may have sent them as
+	// ordinary headers.
 	if meta.compression != "" {
 		headers.Set("Connect-Content-Encoding", meta.compression)
+	} else {
+		headers.Del("Connect-Content-Encoding")
 	}
 	if len(meta.acceptCompression) > 0 {
 		headers.Set("Connect-Accept-Encoding", strings.Join(meta.acceptCompression, ", "))
+	} else {
+		headers.Del("Connect-Accept-Encoding")
 	}
 	if meta.hasTimeout {
 		headers.Set("Connect-Timeout-Ms", connectEncodeTimeout(meta.timeout))
+	} else {
+		headers.Del("Connect-Timeout-Ms")
 	}
 }
 
